@@ -259,6 +259,23 @@ fn gen(t: &mut Tape) -> Case {
             }
             Item { attrs: trait_attrs(false, None), name: "S".into(), generics: String::new(), where_clause: String::new(), body: Body::Struct(Shape::Named, vec![field(Some("a"), vec![]), field(Some("m"), attrs)]) }
         }
+        8 if t.chance(1, 3) => {
+            // enum-level #[ghosts(X: {expr})] / #[ghosts(X(a, ..): {expr})] / #[ghosts(X { a, .. }: {expr})]: From kinds
+            let key = *t.pick(&["X", "X(a, ..)", "X { a, .. }", "X(..)"]);
+            labels.push(format!("position:enum-ghosts:{}", if key == "X" { "name" } else { "pattern" }));
+            let gname = *t.pick(&["ghosts", "ghosts_owned", "ghosts_ref"]);
+            let mut tattrs = trait_attrs(true, None);
+            tattrs.push(Attr::auto(Instr::Ghosts { name: gname.into(), ded: None, entries: vec![GhostEntry { child_path: None, ident: key.into(), action: user.clone() }] }));
+            for f in [false, true] {
+                for k in [FO, FR] {
+                    if (gname == "ghosts_owned" && k == FR) || (gname == "ghosts_ref" && k == FO) {
+                        continue;
+                    }
+                    expects.push(Expect { kind: k, fallible: f, at: "value".into(), tilde: None });
+                }
+            }
+            Item { attrs: tattrs, name: "S".into(), generics: String::new(), where_clause: String::new(), body: Body::Enum(vec![VariantDef { attrs: vec![], name: "U".into(), shape: Shape::Unit, fields: vec![] }]) }
+        }
         8 => {
             // struct-level #[ghosts(g: {expr})]: Into kinds
             labels.push("position:ghosts".into());
@@ -305,6 +322,19 @@ fn gen(t: &mut Tape) -> Case {
                     expects.push(Expect { kind: k, fallible: f, at: src_obj(k).into(), tilde: None });
                 }
                 Item { attrs: trait_attrs(false, Some((target, TParam::Update(braced.clone())))), name: "S".into(), generics: String::new(), where_clause: String::new(), body: Body::Struct(Shape::Named, vec![field(Some("a"), vec![])]) }
+            } else if t.chance(1, 3) {
+                // `_ => expr` default case evaluated by From kinds: enum with a type-level #[ghosts(..)]
+                labels.push("position:default-case-from".into());
+                let target = *t.pick(&["map", "try_map"]);
+                let (ks, f) = trait_name_cells(target).unwrap();
+                for k in ks {
+                    if k == FO || k == FR {
+                        expects.push(Expect { kind: k, fallible: f, at: "value".into(), tilde: None });
+                    }
+                }
+                let mut tattrs = trait_attrs(true, Some((target, TParam::DefaultCase(user.clone()))));
+                tattrs.push(Attr::auto(Instr::Ghosts { name: "ghosts".into(), ded: None, entries: vec![GhostEntry { child_path: None, ident: "X".into(), action: "{ S::U }".into() }] }));
+                Item { attrs: tattrs, name: "S".into(), generics: String::new(), where_clause: String::new(), body: Body::Enum(vec![VariantDef { attrs: vec![], name: "U".into(), shape: Shape::Unit, fields: vec![] }]) }
             } else {
                 // `_ => expr` default case: enum with a payload-less #[ghost] variant (Into kinds evaluate it)
                 labels.push("position:default-case".into());
